@@ -514,6 +514,7 @@ class Prog:
         self.maxrank = maxrank
         self.ops_used = []
         self.tainted = set()  # names whose buffer is shared with a gradient cell (ownership not modelled by value)
+        self.alias = {}       # name -> name of the node it is another handle of (sum(0) returns a clone)
         self.topology = []   # (op, arg ids) for distinctness
         self.maxfan = {}
 
@@ -604,6 +605,8 @@ class Prog:
             self.shape[r] = list(s) if k == 0 else s[:len(s) - k] + [1]
             if k == 0 and a in self.tainted:
                 self.tainted.add(r)
+            if k == 0:
+                self.alias[r] = self.alias.get(a, a)
         elif op == "reshape":
             cnt = prod(s)
             ds = [d for d in range(1, cnt + 1) if cnt % d == 0]
@@ -889,7 +892,7 @@ def fam_release(rng, n, tier, mode="exact"):
     return cases
 
 
-def fam_optim(rng, n, tier, mode="exact"):
+def fam_optim(rng, n, tier, mode="exact", frompass=True):
     """C13: parameter lists of random shapes, every frozen subset (small lists), repeated updates"""
     cases = []
     combos = []
@@ -922,7 +925,7 @@ def fam_optim(rng, n, tier, mode="exact"):
         cases.append(Case(L, ("opt", k, mask, tuple(map(tuple, shapes))), ["k%d" % k, "frozen%d" % (k - sum(mask))], mode,
                           nontrivial=(k >= 2 and 0 < sum(mask))))
     # gradients that come from real passes
-    for _ in range(n // 2):
+    for _ in range(n // 2 if frompass else 0):
         p = Prog(rng, mode)
         params = [p.new_leaf(tracked=True) for _ in range(rng.randint(1, 4))]
         for _ in range(rng.randint(1, 8)):
@@ -1275,3 +1278,95 @@ def fam_flags(rng, n, tier, mode="exact"):
 
 
 FAMILIES.update({"transparent": fam_transparent, "linear": fam_linear, "flags": fam_flags})
+
+
+def fam_accumulate(rng, n, tier, mode="exact"):
+    """C10: a program with a *sequence* of passes (the same result again, an interior node and later a
+    result containing it, results sharing sub-graphs), optionally with a clear in between, next to one
+    fresh instance of the program per pass running that pass alone: every gradient must be the sum of
+    the single-pass gradients since the last clear (`sumgrad`, the implementation against itself)."""
+    out = []
+    for i in range(n):
+        p = build_program(rng, mode, rng.randint(2, 10 if tier == "quick" else 16))
+        names = sorted(p.shape)
+        inter = sorted(p.inter & set(p.shape)) or names
+        npass = rng.randint(2, 4)
+        passes = []
+        for k in range(npass):
+            x = rng.random()
+            if k > 0 and x < 0.35:
+                r = passes[-1][0]                       # the same result again
+            elif x < 0.7:
+                r = rng.choice(inter)                   # any interior node / result
+            else:
+                r = inter[-1]
+            seed = gen_vals(rng, prod(p.shape[r]), mode) if rng.random() < 0.7 else None
+            passes.append((r, seed))
+        clear_at = rng.randint(1, npass - 1) if rng.random() < 0.4 else None
+        clear_name = rng.choice(names)
+        L = rename_lines(p.L, set(names), "a_")
+        for k, (r, seed) in enumerate(passes):
+            if clear_at == k:
+                L.append("cleargrad a_%s" % clear_name)
+            if seed is None:
+                L.append("backward a_%s -" % r)
+            else:
+                L.append("new a_seed%d %s %s" % (k, dims_s(p.shape[r]), vals_s(seed, mode)))
+                L.append("backward a_%s a_seed%d" % (r, k))
+            for v in names:
+                L.append("probe a_%s" % v)
+        for k, (r, seed) in enumerate(passes):
+            pre = "p%d_" % k
+            L += rename_lines(p.L, set(names), pre)
+            if seed is None:
+                L.append("backward %s%s -" % (pre, r))
+            else:
+                L.append("new %sseed %s %s" % (pre, dims_s(p.shape[r]), vals_s(seed, mode)))
+                L.append("backward %s%s %sseed" % (pre, r, pre))
+        node = lambda v: p.alias.get(v, v)
+        for v in names:
+            ks = [k for k in range(npass) if not (node(v) == node(clear_name) and clear_at is not None and k < clear_at)]
+            if ks:
+                L.append("sumgrad a_%s %s" % (v, ",".join("p%d_%s" % (k, v) for k in ks)))
+        kinds = ["passes%d" % npass] + (["clear"] if clear_at is not None else []) + \
+                (["repeat"] if any(passes[k][0] == passes[k - 1][0] for k in range(1, npass)) else [])
+        out.append(Case(L, ("acc", i, tuple(r for r, _ in passes), clear_at, dag_key(p)), kinds, mode))
+    return out
+
+
+def fam_bcast_add(rng, n, tier, mode="exact"):
+    """C03: `a + b` / `a - b` with a non-uniform seed: the gradient of a broadcast operand is the sum of
+    the adjoint over the broadcast positions (1-3 uses), with exactly the operand's dimensions"""
+    cases = []
+    shapes = all_shapes(4, 3) if tier == "thorough" else all_shapes(3, 2)
+    pairs = [(a, b) for a in shapes for b in shapes if compat(a, b) is not None and a != b]
+    if tier != "thorough":
+        pass
+    for (a, b) in pairs:
+        uses = rng.choice([1, 2, 3])
+        op = rng.choice(["add", "sub"])
+        cases.append(Case(ewise_case(rng, a, b, mode, [op], True, uses), ("ba", op, tuple(a), tuple(b), uses),
+                          [op, "uses%d" % uses], mode))
+    for _ in range(n):
+        a, b = rand_compat_pair(rng, 5 if tier == "thorough" else 4, 4)
+        uses = rng.choice([1, 2, 3, 4])
+        op = rng.choice(["add", "sub"])
+        cases.append(Case(ewise_case(rng, a, b, mode, [op], True, uses), ("bar", op, tuple(a), tuple(b), uses),
+                          [op, "uses%d" % uses, "random"], mode, nontrivial=(a != b)))
+    return cases
+
+
+def fam_chains(rng, n, tier, mode="exact"):
+    """C11: self-product chains of user operations — 2^depth paths, depth+1 closure invocations"""
+    cases = []
+    for depth in ([5, 20, 45] if tier == "quick" else [3, 10, 30, 45, 60]):
+        for kind, args in ((1, "y,y"), (3, "y,y,y"), (0, "y,y")):
+            L = ["new x 2 %s" % vals_s({1: [1, -1], 3: [0, -1], 0: [1, 0]}[kind], mode), "tracked x", "clone y x"]
+            for d in range(depth if kind != 0 else min(depth, 40)):
+                L.append("cop %d y %s" % (kind, args))
+            L += ["backward y -", "log", "probe x", "probe y", "grad x"]
+            cases.append(Case(L, ("chain", depth, kind), ["chain", "depth%d" % depth], mode))
+    return cases
+
+
+FAMILIES.update({"accumulate": fam_accumulate, "bcast_add": fam_bcast_add, "chains": fam_chains})
